@@ -122,6 +122,14 @@ def case_generate(rec, case):
     if route in ("cli", "sub") and ("\t" in vendor + cls):
         route = "lib"
     wd = rec.tmpdir()
+    if case.get("prelude") and route != "sub":
+        # history: a record for ANOTHER pair of names was generated just before in the same process - a pair that agrees
+        # with this one once vendor and class are glued together with a separator (a plausible memo key)
+        pre = drive.fresh(wd, ".hex")
+        do_generate(route, pre, case["prelude"][0], case["prelude"][1], addr, size, dp, iu, sv, wd)
+        if os.path.exists(pre):
+            os.unlink(pre)
+        rec.count("generate:after-a-pair-that-concatenates-to-the-same-text")
     out = drive.fresh_out(wd, ".hex")
     full = dict(case, vendor=vendor, cls=cls, size=size, addr=addr, route=route)
     exc = do_generate(route, out, vendor, cls, addr, size, dp, iu, sv, wd)
@@ -137,6 +145,14 @@ def case_generate(rec, case):
     os.unlink(out)
     for mech, text in viol:
         rec.violation(mech, text, full)
+    import random
+    rr = random.Random(f"twins/{case['seed']}/{case['n']}")
+    if "prelude" not in case and route != "sub" and rr.random() < 0.08:
+        sep = rr.choice([":", "/", ",", " ", "|", ".", "-", "_", "\x1f", "", "::", "\\"])
+        a, b, c = rr.choice(["acme.example", "nordicsemi.com", "v"]), rr.choice(["gateway", "app", "x1"]), \
+            rr.choice(["app", "core", "7"])
+        case_generate(rec, dict(case, vendor=a, cls=b + sep + c, prelude=[a + sep + b, c], route=route, addr=addr, size=size))
+        case_generate(rec, dict(case, vendor=a + sep + b, cls=c, prelude=[a, b + sep + c], route=route, addr=addr, size=size))
 
 
 @faults.guarded()
